@@ -148,13 +148,34 @@ def check_kernel(rep, op, cyf):
     rets = [x for x in walk(cyf.node.body) if tname(x) == "ReturnStatNode"]
     last = rets[-1] if rets else None
     ok = False
+    other_slice = None
     if last is not None:
         v = unwrap(last.value)
-        if tname(v) == "SliceIndexNode" and tname(unwrap(v.base)) == "NameNode" and unwrap(v.base).name == k.result_obj \
-                and v.start is None and v.stop is not None and tname(unwrap(v.stop)) == "NameNode" and unwrap(v.stop).name == k.result_len:
-            ok = True
+        # result[:result_len], possibly copied / cast: .copy(), .astype(...), numpy.array(...)
+        while tname(v) in ("SimpleCallNode", "GeneralCallNode"):
+            fn = v.function
+            args = v.positional_args.args if tname(v) == "GeneralCallNode" else (v.args if getattr(v, "args", None) is not None else v.arg_tuple.args)
+            if tname(fn) == "AttributeNode" and fn.attribute in ("copy", "astype", "view"):
+                v = unwrap(fn.obj)
+            elif tname(fn) == "AttributeNode" and fn.attribute in ("array", "asarray", "ascontiguousarray") and args:
+                v = unwrap(args[0])
+            else:
+                break
+        if tname(v) == "SliceIndexNode" and tname(unwrap(v.base)) == "NameNode" and unwrap(v.base).name == k.result_obj:
+            if v.start is None and v.stop is not None and tname(unwrap(v.stop)) == "NameNode" and unwrap(v.stop).name == k.result_len:
+                ok = True
+            else:
+                other_slice = v
+        elif tname(v) == "NameNode" and v.name == k.result_obj:
+            other_slice = v  # the whole, maximally sized, buffer
     n += 1
-    rep.check(ok, "R-C08-c", where, "%s: returns the filled prefix" % op, "return result[:result_len]", "the value returned after the merge is not result[:result_len]")
+    if ok:
+        rep.proved("R-C08-c", where, "%s: returns the filled prefix" % op, "return result[:result_len]")
+    elif other_slice is not None:
+        rep.violated("R-C08-c", where, "%s: returns the filled prefix" % op, "a slice of the output buffer other than [:result_len] is returned: unfilled (garbage) elements are included or emitted ones dropped",
+                     witness={"inputs": "any overlapping operands"})
+    else:
+        rep.undecided("R-C08-c", where, "%s: returns the filled prefix" % op, "the value returned after the merge is not recognised as result[:result_len] (or a copy of it)")
     return n
 
 
